@@ -585,6 +585,16 @@ impl Sim {
                 (owner.clone(), Kinded::Advance, Ok(AppResponse::default()))
             }
             POp::Bad(b) => self.bad(b, &pre),
+            POp::SwapExact { user, pool_id, offer_denom, ask_denom, amount } => {
+                let sender = self.user(*user);
+                let offer_coin = coin(*amount, offer_denom);
+                let q = self.w.simulate(pool_id, offer_coin.clone(), ask_denom);
+                quote = Some(Quote::Swap(q));
+                let slip = Some(Decimal::percent(50));
+                let r = self.w.swap(&sender, pool_id, offer_coin.clone(), ask_denom, None, slip, None);
+                (sender, Kinded::Swap { pool: pool_id.clone(), offer: offer_coin, ask: ask_denom.clone(), receiver: None, slip, belief: None }, r)
+            }
+            POp::RoundTrip { .. } => (owner.clone(), Kinded::Advance, Ok(AppResponse::default())),
         };
 
         self.last_obs = None;
